@@ -537,86 +537,14 @@ def r_cmp(ctx):
 # R-SIGN
 # ---------------------------------------------------------------------------------------------------
 def r_sign(ctx):
-    repo = ctx.repo
-    rec = common.reconstruction_fn(repo)
-    ctx.unit(qualname(rec))
-    # the name subtracted from self.objective
-    final = None
-    for s in flow.stmts_of(rec, ast.Assign):
-        v = s.value
-        if isinstance(v, ast.BinOp) and isinstance(v.op, (ast.Sub, ast.Add)) and (dotted(v.left) == "self.objective" or dotted(v.right) == "self.objective"):
-            final = s
-    if final is None:
-        ctx.ob("R-SIGN", "PEP.%s::objective minus combination" % rec.name, False, "no `self.objective - <combination>` found", loc(rec, rec))
-        return
-    v = final.value
-    if dotted(v.left) == "self.objective":
-        comb, s_obj, s_comb = v.right, 1, (-1 if isinstance(v.op, ast.Sub) else 1)
-    else:
-        comb, s_obj, s_comb = v.left, (-1 if isinstance(v.op, ast.Sub) else 1), 1
-    if not isinstance(comb, ast.Name):
-        ctx.ob("R-SIGN", "PEP.%s::objective minus combination" % rec.name, False, "combination is `%s`" % src(comb), loc(rec, final))
-        return
-    cname = comb.id
-    coeff = {}
-    for s in flow.stmts_of(rec):
-        if isinstance(s, ast.Assign) and any(isinstance(t, ast.Name) and t.id == cname for t in s.targets):
-            fam, sg = _family(s.value)
-            coeff[fam] = coeff.get(fam, 0) + sg
-        elif isinstance(s, ast.AugAssign) and isinstance(s.target, ast.Name) and s.target.id == cname:
-            fam, sg = _family(s.value)
-            if isinstance(s.op, ast.Sub):
-                sg = -sg
-            elif not isinstance(s.op, ast.Add):
-                fam = "?" + type(s.op).__name__
-            coeff[fam] = coeff.get(fam, 0) + sg
-    eff = {k: v_ * s_comb for k, v_ in coeff.items()}
-    eff["objective"] = s_obj
-    want = {"objective": 1, "scalar": -1, "residual": 1, "lmi": 1}
-    ok = eff == want
-    ctx.ob("R-SIGN", "PEP.%s::Lagrangian signs" % rec.name, ok,
-           "objective - (sum dual*expression - <residual, Gram> - sum <dual, matrix>) : signs (%s)" % eff if ok else
-           "effective signs in the reconstructed expression are %s, a maximisation with constraints `expr <= 0`, Gram >= 0, M >= 0 needs %s" % (eff, want),
-           loc(rec, final))
-    ctx.sample({"rule": "R-SIGN", "effective signs": eff})
-    # the scalar term uses the multiplier and expression of the same constraint, the LMI term the same matrix
-    for s in flow.stmts_of(rec, ast.AugAssign):
-        if isinstance(s.target, ast.Name) and s.target.id == cname:
-            recv = {dotted(n.func.value) for n in ast.walk(s.value) if isinstance(n, ast.Call) and call_name(n) == "eval_dual"}
-            objs = {dotted(n.value) for n in ast.walk(s.value) if isinstance(n, ast.Attribute) and n.attr in ("expression", "matrix_of_expressions")}
-            lp = flow.in_loop(s)
-            okp = len(recv) == 1 and recv == objs and lp is not None and isinstance(lp.target, ast.Name) and recv == {lp.target.id}
-            if okp:
-                # every tracked object contributes: exactly one accumulation per element on every path, over the whole tracked list
-                pc = flow.path_counts(lp.body, lambda n: False, lambda st, s_=s: st is s_)
-                okp = set(pc) == {"next"} and pc["next"] == {1} and isinstance(lp.iter, ast.Attribute)
-                if not okp:
-                    ctx.ob("R-SIGN", "PEP.%s::every tracked object contributes (%s)" % (rec.name, _family(s.value)[0]), False,
-                           "the multiplier term is accumulated conditionally / not over the whole tracked list (%s): some sent constraints are missing from the identity"
-                           % {k: sorted(v) for k, v in pc.items()}, loc(rec, s))
-                    continue
-            ctx.ob("R-SIGN", "PEP.%s::pairs a multiplier with its own constraint (%s)" % (rec.name, _family(s.value)[0]), okp,
-                   "multiplier and constrained object come from the same loop element" if okp else
-                   "multiplier of %s combined with %s" % (sorted(recv), sorted(objs)), loc(rec, s))
-    # MOSEK sibling agreement of the dual sign transformation: decided on the unrolled recovery program (minus the bar-duals, y unchanged)
-    from . import mosekprog
+    """Sign convention of the certificate, end to end: the reconstruction (objective + <R, G> + sum <D, M> - sum l e, every tracked entry once,
+    each multiplier with its own object, constant term returned) is decided on the unrolled program (rules/feasprog.py); the MOSEK back-end
+    delivers multipliers in the same convention as cvxpy (minus the bar-duals, y unchanged) on the unrolled recovery program (rules/mosekprog.py)."""
+    from . import feasprog, mosekprog
+    feasprog.r_sign_program(ctx)
     mosekprog.r_mosek_duals(ctx)
 
 
-def _family(expr):
-    sg = 1
-    e = expr
-    while isinstance(e, ast.UnaryOp) and isinstance(e.op, ast.USub):
-        sg = -sg
-        e = e.operand
-    txt = src(e)
-    if "self.residual" in txt:
-        return "residual", sg
-    if "matrix_of_expressions" in txt and "eval_dual" in txt:
-        return "lmi", sg
-    if ".expression" in txt and "eval_dual" in txt:
-        return "scalar", sg
-    return "?" + txt[:30], sg
 
 
 # ---------------------------------------------------------------------------------------------------
